@@ -426,6 +426,7 @@ func (t *tOps) open(f *tFile) (ch *cache.Handle, err error) {
 		return 1, tr
 
 	})
+	verifTableOpened(t.s)
 	if ch == nil && err == nil {
 		err = ErrClosed
 	}
